@@ -24,8 +24,11 @@ import (
 //     of up to 4 blocks (bounded stand-in).
 
 //verif:invariant security/lib.PrfPlus loop1
-func inv_C07_C08_C17_prfplus(prf hash.Hash, stream, block []byte, i int) bool {
+func inv_C07_C08_C17_prfplus(prf hash.Hash, s, stream, block []byte, i int) bool {
 	if i < 1 || i > len(stream)+1 { // (every block adds at least one octet: no overflow of i)
+		return false
+	}
+	if !verifDisjoint(stream, s) { // the output buffer is the function's own: it never overlaps the seed
 		return false
 	}
 	if i == 1 {
@@ -35,19 +38,32 @@ func inv_C07_C08_C17_prfplus(prf hash.Hash, stream, block []byte, i int) bool {
 	return len(stream) >= n && verifSameSlice(block, stream[len(stream)-n:])
 }
 
-//verif:step security/lib.PrfPlus loop1
-func step_C07_C08_C17_prfplus(prf hash.Hash, s []byte, stream_h, block_h []byte, i_h int, stream, block []byte, i int) bool {
-	n := prf.Size()
+func verifPrfBlock(prf hash.Hash, s, block_h []byte, i_h int) []byte {
 	// the reference block, computed with the same keyed object from a clean state
 	prf.Reset()
 	prf.Write(block_h)
 	prf.Write(s)
 	prf.Write([]byte{byte(i_h)})
-	t := prf.Sum(nil)
-	if i != i_h+1 || len(stream) != len(stream_h)+n {
+	return prf.Sum(nil)
+}
+
+//verif:step security/lib.PrfPlus loop1
+func step_C07_C08_C17_prfplus_counts(prf hash.Hash, stream_h []byte, i_h int, stream []byte, i int) bool {
+	return i == i_h+1 && len(stream) == len(stream_h)+prf.Size()
+}
+
+//verif:step security/lib.PrfPlus loop1
+func step_C07_C08_C17_prfplus_prefix(prf hash.Hash, stream_h []byte, stream []byte) bool {
+	return len(stream) >= len(stream_h) && verifBytesEq(stream[:len(stream_h)], stream_h)
+}
+
+//verif:step security/lib.PrfPlus loop1
+func step_C07_C08_C17_prfplus(prf hash.Hash, s []byte, stream_h, block_h []byte, i_h int, stream, block []byte, i int) bool {
+	t := verifPrfBlock(prf, s, block_h, i_h)
+	if len(stream) != len(stream_h)+prf.Size() {
 		return false
 	}
-	return verifBytesEq(stream[:len(stream_h)], stream_h) && verifBytesEq(stream[len(stream_h):], t) && verifBytesEq(block, t)
+	return verifBytesEq(stream[len(stream_h):], t) && verifBytesEq(block, t)
 }
 
 // running the function makes the step and invariant obligations part of C07/C08/C17
